@@ -6,12 +6,21 @@ package jd
 // This file contains only comments: it cannot change the behaviour of the
 // package under any build tag. Syntax: see /verif/DESIGN.md section 5.
 
+//@ contract JsonNode.patch
+//@   requires validNode(self) && validPath(pathAhead) && validStrategy(strategy)
+//@   requires validNodes(before) && validNodes(oldValues) && validNodes(newValues) && validNodes(after)
+//@   ensures ret1 == nil ==> validNode(ret0)
+//@   ensures strategy == strictPatchStrategy && specListPath(pathAhead) ==> (ret1 == nil) == specStrictOK(old(self), pathAhead, before, oldValues, newValues, after)
+//@   ensures strategy == strictPatchStrategy && specListPath(pathAhead) && ret1 == nil ==> specStrictRes(old(self), pathAhead, oldValues, newValues, ret0)
+//@   consumes self
+//@   carries C03 C13 C01
+
 //@ contract (jsonList).patch
-//@   requires validPath(pathAhead)
-//@   requires validNodes(l) && validNodes(before) && validNodes(removeValues) && validNodes(addValues) && validNodes(after)
-//@   consumes l
-//@   loop "for len(removeValues) > 0" invariant len(l) >= 0
-//@   carries C13
+//@   loop "range before" invariant forallInt(0, idx, func(q int) bool { return specCtx(before[q], l, int(i)-(len(before)-q)) })
+//@   loop "for len(removeValues) > 0" invariant specRemoveInv(old(l), l, old(removeValues), removeValues, int(i))
+//@   loop "for len(removeValues) > 0" invariant validNodes(l) && validNodes(removeValues)
+//@   loop "for len(removeValues) > 0" decreases len(removeValues)
+//@   loop "range after" invariant forallInt(0, idx, func(q int) bool { return specCtx(after[q], l, int(i)+q) })
 
 //@ contract dispatch
 //@   ensures ret0 == specDispatch(n, options)
